@@ -1,11 +1,12 @@
 """C02 — lane property: word-level mechanism theorems over Gen_dqstate (+ site lists) and the stress oracle."""
 import lanes
 import lanewords
+from props import c01_slane
 
 PROPERTIES_FILE = "Properties/Properties_C02.v"
-COQ_DEPS = ["Proofs/Lane_iface.vo", "Proofs/SLane_progress.vo", "Proofs/SLane_measure.vo"] + ["Model/LaneWords.vo"]
-EXTRA_PROPERTIES_FILES = ["Properties/Properties_C02_slane.v"]
-GEN_MODULES = ["Gen_dqstate", "Gen_lanesites", "Gen_once"]
+COQ_DEPS = ["Proofs/Lane_iface.vo", "Proofs/SLane_progress.vo", "Proofs/SLane_measure.vo", "Proofs/SLane_realtime.vo"] + ["Model/LaneWords.vo"] + list(c01_slane.COQ_DEPS)
+EXTRA_PROPERTIES_FILES = ["Properties/Properties_C02_slane.v", c01_slane.PROPERTIES_FILE]
+GEN_MODULES = ["Gen_dqstate", "Gen_lanesites", "Gen_once", "Gen_fields"]
 LEVEL = "proof"
 TRUSTED = [
     "PARTIAL: (a) word-level theorems about the dq_state transition bodies / atomic site lists translated from the source on every "
@@ -20,12 +21,15 @@ TRUSTED += ["word-transition conformance (lib/lanewords.py, Model/LaneWords.v): 
             "operation and give-up recorded in the stress runs is judged against the generated Gen_dqstate body of its source line "
             "(parameter domains of lib/lanewords.py param_domain are trusted); it ties Gen_dqstate to the running code, it does not judge the property"]
 ASSUMPTIONS = ["the stress oracle explores the schedules the OS and the perturbation hook produce; absence of a failure there is not a proof"]
+TRUSTED += ["serial-lane trace conformance and global replay (Properties_C01_slanet.v, lib/props/c01_slane.py): " + t for t in c01_slane.TRUSTED]
+ASSUMPTIONS += list(c01_slane.ASSUMPTIONS)
 
 
 def correspond(ctx):
     return lanes.merge([lanes.run_part("lanes", lambda c: lanes.run(c, "C02"), ctx),
-                        lanes.run_part("words", lambda c: lanewords.run(c, "C02"), ctx)])
+                        lanes.run_part("words", lambda c: lanewords.run(c, "C02"), ctx),
+                        lanes.run_part("slane", lambda c: c01_slane.correspond(c, tag="c02_slane"), ctx)])
 
 
 def replay(ctx, obj):
-    return lanes.replay(ctx, obj)
+    return lanes.replay_parts(ctx, obj, {"lanes": lanes.replay, "slane": c01_slane.replay})
